@@ -303,4 +303,41 @@ PoolC12 == PoolC12flat1 \cup PoolC12flat2 \cup PoolC12desc \cup PoolC12pred
 PoolC12big == PoolC12 \cup PoolC12flat3
 PoolC13 == PoolC04
 
+(***************************************************************************)
+(* C11: unions.  Operands from a pool of paths with overlapping, disjoint  *)
+(* and equal results; nested unions; the engine's sequence step p/(a, b).  *)
+(***************************************************************************)
+UOperands(names) ==
+    { Desc(NTAny), Desc(NTNode), Desc(NTText), Desc(NTComment), Path(TRUE, <<DosNode, Step("attribute", NTAny, <<>>)>>),
+      Rel1("child", NTAny), Rel1("descendant", NTAny), Rel1("descendant-or-self", NTNode), Rel1("ancestor-or-self", NTAny),
+      Rel1("following", NTNode), Rel1("preceding", NTNode), Rel1("attribute", NTAny), SelfDot,
+      Path(FALSE, <<Step("child", NTAny, <<>>), Step("child", NTAny, <<>>)>>),
+      Path(FALSE, <<Step("child", NTAny, <<>>), Step("child", NTText, <<>>)>>) }
+    \cup {Rel1("child", NTName(n)) : n \in names} \cup {Desc(NTName(n)) : n \in names}
+PoolC11pairs(names) == {Union(l, r) : l \in UOperands(names), r \in UOperands(names)}
+PoolC11nested(names) ==
+    {Union(Union(l, r), Desc(NTAny)) : l \in {Rel1("child", NTAny), Desc(NTText)}, r \in UOperands(names)}
+    \cup {Union(Desc(NTNode), Union(l, r)) : l \in {Rel1("child", NTAny), Desc(NTAny)}, r \in UOperands(names)}
+PoolC11seq(names) ==
+    {SeqStep(b, <<Step("child", n1, <<>>), Step("child", n2, <<>>)>>) :
+        b \in {Rel1("child", NTAny), Desc(NTAny), SelfDot},
+        n1 \in {NTName(n) : n \in names} \cup {NTAny, NTText}, n2 \in {NTName(n) : n \in names} \cup {NTAny, NTNode}}
+    \cup {SeqStep(Rel1("child", NTAny), <<Step("child", NTAny, <<>>), Step("attribute", NTAny, <<>>), Step("child", NTText, <<>>)>>)}
+
+(***************************************************************************)
+(* C13: wrappers that must preserve the node set / truth value             *)
+(***************************************************************************)
+WithTruePred(pa) ==
+    LET n == Len(pa.steps)
+    IN [pa EXCEPT !.steps[n].preds = Append(@, Call("true", <<>>))]
+Wrappers(pa) ==
+    { WithTruePred(pa), Filter(pa, <<>>, <<>>), Union(pa, pa),
+      Call("not", <<Call("not", <<pa>>)>>), Filter(pa, <<Call("true", <<>>)>>, <<>>) }
+Paths12(axes, tests) ==
+    {Path(ab, <<Step(ax, nt, <<>>)>>) : ab \in BOOLEAN, ax \in axes, nt \in tests}
+    \cup {Path(ab, <<Step(ax, nt, <<>>), Step(ax2, nt2, <<>>)>>) : ab \in BOOLEAN, ax \in axes, nt \in tests, ax2 \in axes, nt2 \in tests}
+PoolC13wrap(axes, tests) == UNION {Wrappers(pa) : pa \in Paths12(axes, tests)}
+PoolC13wrapPred(A) == UNION {Wrappers(Path(FALSE, <<Step("child", NTAny, <<>>), Step(ax, NTAny, <<p>>)>>)) :
+                               ax \in {"child", "descendant", "following-sibling", "ancestor"}, p \in A}
+
 =============================================================================
